@@ -24,8 +24,8 @@ spec = {
    "every op-emitting construct carries a unique tag; positions recorded by the generator's printer are compared with the real map (direct, keyword statements, macro, call site, return address bounds, file set, position marks)."),
  "C09": ("proof", "Coq proofs about a model of the decompilers' text writer (line counter, entry placement) + correspondence on both decompilers; tagged inputs: entries checked against the text and the compile-time map of the recompiled text",
    "Dec/WriterProofs.v: the line counter equals 1 + line feeds written for every operation sequence; an entry recorded before a statement points at its first character. Partial: which op an entry is recorded for is decided on the real decompiler: entries must be keyed by input offsets, point at the first token of the statement of that op, exist for every printed op, and agree in line with the compile-time map of the recompiled text."),
- "C10": ("exploration", "statically meaningless constructs in hand-written contexts and injected into random valid programs; invalid import graphs; corrupted/degenerate inputs; outcome classes",
-   "statically meaningless programs of every class named by the property must be rejected with a documented error; arbitrary inputs may only raise ParseError, SsbCompilerError or ValueError (exception site recorded)."),
+ "C10": ("exploration", "Coq theorems over the specification (a meaning only if well scoped; unknown / under-applied / cyclic macros rejected by inline) tied to the compiler by acceptance; statically meaningless constructs injected into random valid programs; invalid import graphs; corrupted/degenerate inputs; outcome classes",
+   "Proved over Lang/SrcSem.v + Lang/Inline.v: meaning_implies_well_scoped, unknown_macro_rejected, too_few_arguments_rejected, macro_cycle_rejected; the compiler is tied to the specification by acceptance (accepted => has a meaning) on generated programs. Explored: statically meaningless programs of every class named by the property must be rejected with a documented error; arbitrary inputs may only raise ParseError, SsbCompilerError or ValueError (exception site recorded)."),
  "C11": ("proof", "Coq frame theorem (history independence from two frame conditions) + audit of the frame conditions on the real process state after every call + differential over call histories vs fresh processes",
    "Hist/Frame.v history_independent: results are history independent if calls read the process state only through obs and restore obs. Both conditions are audited on the real package state (module/class-level values; writer-tagged memo table) after every call; histories are also compared call by call with fresh processes. State inside antlr4/igraph is not covered."),
  "C12": ("proof", "Coq ownership theorem (schedule independence) + audit of the ownership conditions under threads + thread stress vs sequential results",
